@@ -346,3 +346,14 @@ pub proof fn lemma_window_is_slice(s: nat, t: Option<nat>, r: Seq<Context>)
         }
     }
 }
+
+// C14: once S+T rows have reached --skip S --take T, whatever input follows cannot change what it selects — which is why the
+// limiter may answer Break and the reader may stop (the protocol side of this is (P2) on every stage and LOOP.stop)
+pub proof fn lemma_rows_after_the_window_are_irrelevant(s: nat, t: nat, a: Seq<Context>, b: Seq<Context>)
+    requires a.len() >= s + t,
+    ensures window(s, Some(t), a.add(b)) == window(s, Some(t), a), // @obl THY.C14.rows_after_the_window_are_irrelevant : C14 C08
+{
+    lemma_window_is_slice(s, Some(t), a.add(b));
+    lemma_window_is_slice(s, Some(t), a);
+    assert(a.add(b).subrange(s as int, (s + t) as int) =~= a.subrange(s as int, (s + t) as int));
+}
